@@ -5,6 +5,9 @@ repo=${VP_RUN_REPO:-/repo}
 tgt=$here/target-bg
 ( cd "$here/sim" && sed -i "s#path = \"/repo\"#path = \"$repo\"#" Cargo.toml && sed -i "s#target-dir = \"/verif/target\"#target-dir = \"$tgt\"#" .cargo/config.toml && cargo build --release 2>&1 | tail -1 )
 ( cd "$here/sched" && sed -i "s#/verif/target/sched#$tgt/sched#" .cargo/config.toml )
+( cd "$here/sim" && cargo build --profile fast 2>&1 | tail -1 )
+# the thorough tier's second batch (no debug assertions) must use THIS snapshot's build, not /verif/target's
+export VERIF_FAST_BIN=$tgt/fast/cfbsim
 bin=$tgt/release/cfbsim
 export VERIF_NO_EVIDENCE=1
 run_check() { # <check> <tier> <seed>
